@@ -12,7 +12,7 @@
    checked on every implementation output by the harness family `extend`. *)
 From Coq Require Import List ZArith Bool Permutation.
 From TskVerif Require Import Base.Common Gen.Generated C11.Model C11.Current C11.Spec C11.IntervalProofs C11.SitesProofs
-     C11.KeepProofs C11.TrimProofs C11.TrimMutProofs C11.TimeProofs C11.TotalProofs C11.ExtendSpec C11.ExtendCheck C11.Collection C11.AncestryProofs C11.DelSitesOrder C11.DelSitesEmpty C11.Main.
+     C11.KeepProofs C11.TrimProofs C11.TrimMutProofs C11.TimeProofs C11.TotalProofs C11.ExtendSpec C11.ExtendCheck C11.Collection C11.AncestryProofs C11.DelSitesOrder C11.DelSitesEmpty C11.Main C11.KeepIff.
 Import ListNotations.
 Open Scope Z_scope.
 
@@ -438,3 +438,9 @@ Proof. exact delete_sites_same_elements_lemma. Qed.
 (* deleting no site is the identity on every table collection whose references are in range *)
 Theorem delete_sites_nil_is_identity : forall t, refs_ok t -> delete_sites [] t = Ok t.
 Proof. exact delete_sites_nil_lemma. Qed.
+
+(* keep_intervals succeeds EXACTLY on well-formed interval lists (corollary of
+   keep_intervals_total / keep_intervals_rejects_malformed). *)
+Theorem keep_intervals_ok_iff : forall srt ivs t, refs_ok t ->
+  ((exists t', keep_intervals srt ivs t = Ok t') <-> intervals_ok 0 (t_L t) ivs = true).
+Proof. exact keep_intervals_ok_iff_proof. Qed.
